@@ -734,6 +734,9 @@ func runC06(args []string) error {
 		if len(in.Ops) > 0 && strings.HasPrefix(in.Ops[0], "cms") {
 			return c06RunConfl(co, c06StaleIn{Cfg: in.Cfg, Blocks: in.Blocks, Ops: in.Ops})
 		}
+		if len(in.Ops) > 0 && strings.Contains(in.Ops[0], "/raced") {
+			return c06RunRace(co, c06StaleIn{Cfg: in.Cfg, Blocks: in.Blocks, Ops: in.Ops})
+		}
 		if len(in.Ops) > 0 && strings.Count(in.Ops[0], "/") == 2 {
 			return c06RunStale(co, c06StaleIn{Cfg: in.Cfg, Blocks: in.Blocks, Ops: in.Ops})
 		}
@@ -768,6 +771,14 @@ func runC06(args []string) error {
 			st := c06Input{Cfg: in.Cfg, Blocks: in.Blocks, Ops: c06StaleOps()}
 			st.Cfg.GC = false
 			if err := run(st); err != nil {
+				return fmt.Errorf("state %d: %w", i, err)
+			}
+		}
+		if i%2 == 0 {
+			// admission racing block acceptance: T parked between its verification and its insertion, block H+1 meanwhile
+			rc := c06Input{Cfg: in.Cfg, Blocks: in.Blocks, Ops: c06RaceOps()}
+			rc.Cfg.GC = false
+			if err := run(rc); err != nil {
 				return fmt.Errorf("state %d: %w", i, err)
 			}
 		}
